@@ -20,6 +20,7 @@ const (
 	MTDManifest = "application/vnd.docker.distribution.manifest.v2+json"
 	MTDList     = "application/vnd.docker.distribution.manifest.list.v2+json"
 	MTArtifact  = "application/vnd.oci.artifact.manifest.v1+json"
+	MTCustom    = "application/vnd.verif.manifest.v1+json" // kind cmanifest: an image manifest under a media type of the user's own
 )
 
 // Edge is one link of the ground-truth graph. Role is one of subject, config,
@@ -53,7 +54,7 @@ type Graph struct {
 
 func IsManifestKind(k string) bool {
 	switch k {
-	case "manifest", "dmanifest", "index", "dlist", "artifact":
+	case "manifest", "dmanifest", "cmanifest", "index", "dlist", "artifact":
 		return true
 	}
 	return false
@@ -189,10 +190,13 @@ func BuildWith(nodes []NodeSpec, salt string, blobs [][]byte) (*Graph, error) {
 			} else {
 				b = []byte{}
 			}
-		case "manifest", "dmanifest":
+		case "manifest", "dmanifest", "cmanifest":
 			mt = ocispec.MediaTypeImageManifest
 			if ns.Kind == "dmanifest" {
 				mt = MTDManifest
+			}
+			if ns.Kind == "cmanifest" {
+				mt = MTCustom
 			}
 			cfg := role("config")
 			if len(cfg) != 1 {
